@@ -187,6 +187,8 @@ func Check(id, tier string, seed int64) int {
 			merged.Inconclusive["outer wall-clock watchdog"]++
 			harness = append(harness, fmt.Sprintf("worker %d exceeded the outer watchdog (%s)", o.shard, limit))
 		case o.exit == 0 || o.exit == 3:
+		case p.Race && o.exit == 66:
+			// the race detector's exit status: the reports are read from its log below
 		default:
 			// crash: fatal error, race-detector abort, checkptr, stack overflow
 			cur, _ := os.ReadFile(filepath.Join(outdir, fmt.Sprintf("cur%02d.case", o.shard)))
@@ -404,9 +406,11 @@ func raceKey(blk string) string {
 			l = strings.TrimSpace(l)
 			if strings.HasPrefix(l, "github.com/tidwall/geojson") {
 				fn := l
-				if i := strings.IndexByte(fn, '('); i > 0 {
+				if i := strings.LastIndexByte(fn, '('); i > 0 {
 					fn = fn[:i]
 				}
+				fn = strings.TrimPrefix(fn, "github.com/tidwall/geojson")
+				fn = strings.TrimLeft(fn, "/.")
 				if inner == "" {
 					inner = fn
 				}
